@@ -1,0 +1,57 @@
+//go:build verif
+
+// Contracts for the Pedersen verifiers of this curve (comment-only; installed by /verif/gcv gen-contracts).
+// Acceptance-implies-check clauses at an opaque layer: group elements are values of uninterpreted sorts, the
+// subgroup test is an (assumed) pure predicate of the point, the pairing check is an opaque call whose arguments
+// and result are captured at the call site.
+
+package pedersen
+
+//@ func VerifyingKey.Verify
+//@ layer opaque bw6761.G1Affine bw6761.G2Affine
+//@ option opaque-calls
+//@ option nomerge
+//@ ghost sub1 = false
+//@ ghost sub2 = false
+//@ ghost pcok = false
+//@ ghost nargs = 0
+//@ ghost a0 = commitment
+//@ ghost a1 = commitment
+//@ ghost b0 = vk.G
+//@ ghost b1 = vk.GSigmaNeg
+//@ cut after call IsInSubGroup #1
+//@ + ghost sub1 = callresult && *callarg0 == commitment
+//@ cut after call IsInSubGroup #2
+//@ + ghost sub2 = callresult && *callarg0 == knowledgeProof
+//@ cut after call PairingCheck #1
+//@ + ghost pcok = isnil(callresult1) && callresult0
+//@ + ghost nargs = len(callarg0)
+//@ + ghost a0 = callarg0[0]
+//@ + ghost a1 = callarg0[1]
+//@ + ghost b0 = callarg1[0]
+//@ + ghost b1 = callarg1[1]
+//@ ensures[subgroup] isnil(result) ==> sub1 && sub2
+//@ ensures[pairing] isnil(result) ==> pcok && nargs == 2 && a0 == commitment && a1 == knowledgeProof && b0 == vk.GSigmaNeg && b1 == vk.G
+//@ modifies nothing
+//@ end
+
+//@ func BatchVerifyMultiVk
+//@ layer opaque bw6761.G1Affine bw6761.G2Affine fr.Element
+//@ option opaque-calls
+//@ option pure IsInSubGroup
+//@ option nomerge
+//@ requires len(commitments) > 0
+//@ ghost pcok = false
+//@ loop 0
+//@ + invariant[commitments-checked] 0 <= iter && iter <= len(commitments) && forall(k, 0, iter, ufbool_pure_IsInSubGroup(commitments[k]))
+//@ loop 1
+//@ + invariant[pok-checked] 0 <= iter && iter <= len(pok) && forall(k, 0, len(commitments), ufbool_pure_IsInSubGroup(commitments[k])) && forall(k, 0, iter, ufbool_pure_IsInSubGroup(pok[k]))
+//@ loop 2
+//@ + invariant[folding] 0 <= iter && iter <= len(vk) && len(pairingG1) == len(vk) + 1 && len(pairingG2) == len(vk) + 1 && forall(k, 0, len(commitments), ufbool_pure_IsInSubGroup(commitments[k])) && forall(k, 0, len(pok), ufbool_pure_IsInSubGroup(pok[k]))
+//@ cut after call PairingCheck #1
+//@ + ghost pcok = isnil(callresult1) && callresult0
+//@ ensures[lengths] isnil(result) ==> len(commitments) == len(vk) && (len(pok) == len(vk) || len(pok) == 1)
+//@ ensures[subgroup] isnil(result) ==> forall(k, 0, len(commitments), ufbool_pure_IsInSubGroup(commitments[k])) && forall(k, 0, len(pok), ufbool_pure_IsInSubGroup(pok[k]))
+//@ ensures[pairing] isnil(result) ==> pcok
+//@ modifies nothing
+//@ end
